@@ -10,6 +10,7 @@ var (
 	_ ColumnOf[Nullable[string]] = (*ColNullable[string])(nil)
 	_ StateEncoder               = (*ColNullable[string])(nil)
 	_ StateDecoder               = (*ColNullable[string])(nil)
+	_ Inferable                  = (*ColNullable[string])(nil)
 
 	_ = ColNullable[string]{
 		Values: new(ColStr),
@@ -82,6 +83,16 @@ func (c *ColNullable[T]) Prepare() error {
 	if v, ok := c.Values.(Preparable); ok {
 		if err := v.Prepare(); err != nil {
 			return errors.Wrap(err, "prepare values")
+		}
+	}
+	return nil
+}
+
+// Infer ensures Inferable column propagation.
+func (c *ColNullable[T]) Infer(t ColumnType) error {
+	if v, ok := c.Values.(Inferable); ok {
+		if err := v.Infer(t.Elem()); err != nil {
+			return errors.Wrap(err, "infer values")
 		}
 	}
 	return nil
